@@ -140,14 +140,22 @@ func quoteIdentAlways(n string) string {
 // ident spells one identifier: quoted when it must be, otherwise at random.
 func (g *gen) identSpelling(n string) string {
 	if influxql.IdentNeedsQuotes(n) || (!g.plain && g.r.chance(1, 4)) {
-		return quoteIdentAlways(n)
+		q := quoteIdentAlways(n)
+		if !g.plain && g.r.chance(1, 3) { // the other quote may be written escaped as well: same value
+			q = strings.Replace(q, "'", `\'`, -1)
+		}
+		return q
 	}
 	return n
 }
 func (g *gen) ident(n string) { g.emit(g.identSpelling(n)) }
 
 func (g *gen) str(s string) {
-	g.emit("'" + strings.NewReplacer("\n", `\n`, `\`, `\\`, `'`, `\'`).Replace(s) + "'")
+	lit := "'" + strings.NewReplacer("\n", `\n`, `\`, `\\`, `'`, `\'`).Replace(s) + "'"
+	if !g.plain && g.r.chance(1, 3) { // the other quote may be written escaped as well: same value
+		lit = strings.Replace(lit, `"`, `\"`, -1)
+	}
+	g.emit(lit)
 }
 
 var strPool = []string{"server01", "us-west", "", "it's", "a\\b", "line\nbreak", "\"dq\"", "2000-01-01T00:00:00Z", "héllo", "x;DROP", "--", "/*", "日本"}
@@ -167,7 +175,10 @@ type durSpell struct {
 }
 
 var durPool = []durSpell{{"10s", 10 * time.Second}, {"1h30m", 90 * time.Minute}, {"5ms", 5 * time.Millisecond}, {"7u", 7 * time.Microsecond}, {"3µ", 3 * time.Microsecond},
-	{"1ns", 1}, {"2w", 14 * 24 * time.Hour}, {"1d", 24 * time.Hour}, {"0s", 0}, {"90m", 90 * time.Minute}, {"1w2d3h4m5s6ms7u8ns", 9*24*time.Hour + 3*time.Hour + 4*time.Minute + 5*time.Second + 6*time.Millisecond + 7*time.Microsecond + 8}}
+	{"1ns", 1}, {"2w", 14 * 24 * time.Hour}, {"1d", 24 * time.Hour}, {"0s", 0}, {"90m", 90 * time.Minute}, {"1w2d3h4m5s6ms7u8ns", 9*24*time.Hour + 3*time.Hour + 4*time.Minute + 5*time.Second + 6*time.Millisecond + 7*time.Microsecond + 8},
+	// the largest whole number of each unit: written in a smaller unit, printed in the larger one
+	{"106750d", 106750 * 24 * time.Hour}, {"153722820m", 153722820 * time.Minute}, {"2562047h", 2562047 * time.Hour}, {"9223372036s", 9223372036 * time.Second},
+	{"010m", 10 * time.Minute}, {"1m08s", 68 * time.Second}}
 
 func (g *gen) varRef() *influxql.VarRef {
 	n := 1
